@@ -47,7 +47,7 @@ def main() -> None:
                 for cfg in configs:
                     run = r['runs'].get(c06.cfg_key(cfg))
                     if run and run['ok']:
-                        reqs.append(c06.model_lines(r, cfg, 'F-C06-CPP-VARIANT' in live))
+                        reqs.append(c06.model_lines(r, cfg, False))
                         idx.append(cfg)
                 types = {c06.tkey(t): t for t in r['types']}
                 for cfg, m in zip(idx, c06.run_model(exe, reqs)):
